@@ -39,6 +39,12 @@ def basis(h, degree=2, nel=2, nonuniform=False, seed=0):
     h.le("element lookup: lower knot <= xi", lo, xi)
     h.le("element lookup: xi <= upper knot", xi, hi)
     h.holds("element lookup: index in range", 0 <= el < nel)
+    if nonuniform:
+        # the partition the user asked for (degree 1: the data are the element boundaries) is the ground truth, not the knot vector's own tables
+        data = np.asarray(kv.data, dtype=float)
+        h.le("element lookup: user's lower boundary <= xi", float(data[el]), xi)
+        h.le("element lookup: xi <= user's upper boundary", xi, float(data[el + 1]))
+        h.holds("element interval = the user's boundaries", float(lo) == float(data[el]) and float(hi) == float(data[el + 1]), info=f"{lo}, {hi} vs {data[el]}, {data[el + 1]}")
     N = lagrange_basis1D(degree, xi, 1, kv)
     hlen = float(hi - lo)
     s0 = sum(N[0][i] for i in range(degree + 1))
@@ -177,6 +183,12 @@ def cases(tier, seed):
         if nel > 1:
             cs.append(Case(f"basis/p1/nel{nel}/nonuniform", basis, dict(degree=1, nel=nel, nonuniform=True, seed=seed), timeout=T, max_paths=200, max_depth=200))
             cs.append(Case(f"kronecker/p1/nel{nel}/nonuniform", kronecker, dict(degree=1, nel=nel, nonuniform=True, seed=seed), timeout=T, sentinel=False))
+    # one-sided evaluation at element boundaries, in either order, through the memoised Mesh1D.eval_basis (harness of C26)
+    import itertools
+    from checks import c26
+    for k in (1, 2):
+        for ea, eb in itertools.permutations((k - 1, k, None), 2):
+            cs.append(Case(f"one_sided/knot{k}/el={ea}-then-{eb}", c26.mesh, dict(knot=(k, ea, eb), seed=seed), timeout=T, sentinel=False))
     for n in ((1, 2, 3, 4) if tier == "quick" else (1, 2, 3, 4, 5, 6)):
         cs.append(Case(f"gauss/n{n}", quadrature, dict(rule="gauss", n=n), timeout=T))
     for n in ((2, 3, 4, 5) if tier == "quick" else (2, 3, 4, 5, 6, 7)):
